@@ -106,7 +106,7 @@ def draw_pvs(rng, n):
                 for s in chosen]
         out.append({"depth": d, "fan": rng.choice([1, 2]), "same": rng.random() < 0.4, "wrap": rng.choice([0, 0, 1, 2]),
                     "nest": "lib", "split": split, "xtype": xt, "xdims": 0, "xpre": rng.choice(["", "", "parameter", "constant", "input"]),
-                    "ypre": "", "ieq": False, "attr": attr, "mods": mods})
+                    "ypre": "", "ieq": False, "attr": attr, "mods": mods, "clash": rng.random() < 0.2, "shadow": False})
     return out
 
 
